@@ -48,7 +48,7 @@ def main():
     with ThreadPoolExecutor(max_workers=int(os.environ.get("SEED_JOBS", "5"))) as ex:
         res = dict(ex.map(run_seed, names))
     for n in names:
-        own = n.split("-")[0]
+        own = n.split("-")[0][:3]
         r = res[n]
         print("%-36s own-check:%-8s reported by: %s" % (
             n, "CAUGHT" if own in r and r[own].get("exit") == 1 else "MISSED",
